@@ -68,7 +68,7 @@ CHECKS = {
                 note="Eight known findings remain open after eleven formatter fixes (comment order, comments in string holes, bare type binding patterns, ...); see known_findings.json."),
     "C14": dict(engine="sim", category="model_checking", design="4, 7/C14",
                 technique="stateless model checking of the real runtime over an instrumented effect backend with scheduler-controlled completion; host-side ownership model on the consumed event stream",
-                text="Resource scenarios over the real file and TCP builtins (in-memory backend: files, listeners, accepted sockets) and the real ownership logic under every schedule within the deviation bound, effects immediate or deferred: backend calls vs the calls the ownership rules allow after every environment step, runtime closes only for terminated owners and at most once, at quiescence every resource of a terminated owner is closed (one known finding: never-awaited owners).",
+                text="Resource scenarios over the real file and TCP builtins (in-memory backend: files, listeners, accepted sockets) and the real ownership logic under every schedule within the deviation bound, effects immediate or deferred: backend calls vs the calls the ownership rules allow after every environment step, runtime closes only for terminated owners and at most once, at quiescence every resource of a terminated owner is closed (a sleeping session process counts as alive; a failed one as terminated).",
                 note=A_NOTE + " io_uring/native registry replaced by an in-memory backend."),
     "C15": dict(engine="sim", category="model_checking", design="4, 7/C15",
                 technique="stateless model checking of the real runtime with failure-placement scenarios and per-process result expectations",
